@@ -10,15 +10,21 @@ mod engine;
 mod gen;
 mod c01;
 mod c02;
+mod c04;
+mod c05;
 mod c07;
 mod c08;
+mod c09;
+mod c10;
+mod c16;
+mod c19;
 
 use std::path::PathBuf;
 
 use engine::*;
 
 fn properties() -> Vec<Property> {
-    vec![c01::property(), c02::property02(), c02::property03(), c07::property(), c08::property()]
+    vec![c01::property(), c02::property02(), c02::property03(), c07::property(), c08::property(), c04::property(), c05::property(), c19::property(), c09::property(), c10::property(), c16::property()]
 }
 
 fn main() {
